@@ -14,6 +14,7 @@ package main
 import (
 	"fmt"
 	"go/ast"
+	"go/parser"
 	"go/token"
 	"math/big"
 	"os"
@@ -234,7 +235,7 @@ func glAsM(code string, pure bool) string {
 
 func (t *glTr) fresh() string {
 	t.tmp++
-	return fmt.Sprintf("x%d", t.tmp)
+	return fmt.Sprintf("t__%d", t.tmp)
 }
 
 // seq builds a monadic term that evaluates the impure operands left to right and combines them.
@@ -437,7 +438,7 @@ func (t *glTr) expr(e ast.Expr) (string, bool) {
 			return c, false
 		}
 		// c = (do …; pure (idx a i)) : M (M α) — flatten
-		return "(do let r ← " + c + "; r)", false
+		return "(do let r__ ← " + c + "; r__)", false
 	case *ast.SliceExpr:
 		if x.Slice3 {
 			t.die(e, "3-index slice")
@@ -452,21 +453,21 @@ func (t *glTr) expr(e ast.Expr) (string, bool) {
 				return "(Glb.Go.slice " + s[0] + " " + s[1] + " " + s[2] + ")"
 			})
 			if !p {
-				return "(do let r ← " + c2 + "; r)", false
+				return "(do let r__ ← " + c2 + "; r__)", false
 			}
 			c = c2
 		case x.Low != nil:
 			l, pl := t.expr(x.Low)
 			c2, p := t.seq([]string{a, l}, []bool{pa, pl}, func(s []string) string { return "(Glb.Go.sliceFrom " + s[0] + " " + s[1] + ")" })
 			if !p {
-				return "(do let r ← " + c2 + "; r)", false
+				return "(do let r__ ← " + c2 + "; r__)", false
 			}
 			c = c2
 		case x.High != nil:
 			h, ph := t.expr(x.High)
 			c2, p := t.seq([]string{a, h}, []bool{pa, ph}, func(s []string) string { return "(Glb.Go.sliceTo " + s[0] + " " + s[1] + ")" })
 			if !p {
-				return "(do let r ← " + c2 + "; r)", false
+				return "(do let r__ ← " + c2 + "; r__)", false
 			}
 			c = c2
 		default:
@@ -476,7 +477,7 @@ func (t *glTr) expr(e ast.Expr) (string, bool) {
 	case *ast.CallExpr:
 		return t.call(x)
 	case *ast.CompositeLit:
-		if at, ok := x.Type.(*ast.ArrayType); ok && at.Len != nil {
+		if _, ok := x.Type.(*ast.ArrayType); ok {
 			cs, ps := t.exprs(x.Elts)
 			return t.seq(cs, ps, func(s []string) string { return "[" + strings.Join(s, ", ") + "]" })
 		}
@@ -488,6 +489,9 @@ func (t *glTr) expr(e ast.Expr) (string, bool) {
 
 func (t *glTr) call(x *ast.CallExpr) (string, bool) {
 	name := glText(x.Fun)
+	if name == "" {
+		name = glTextType(x.Fun) // conversions such as []byte(s)
+	}
 	switch name {
 	case "len":
 		c, p := t.expr(x.Args[0])
@@ -567,7 +571,7 @@ func (t *glTr) call(x *ast.CallExpr) (string, bool) {
 				if p {
 					return c, false
 				}
-				return "(do let r ← " + c + "; r)", false
+				return "(do let r__ ← " + c + "; r__)", false
 			}
 		}
 	}
@@ -580,7 +584,7 @@ func (t *glTr) call(x *ast.CallExpr) (string, bool) {
 		if p {
 			return c, false
 		}
-		return "(do let r ← " + c + "; r)", false
+		return "(do let r__ ← " + c + "; r__)", false
 	}
 	if lib, ok := glLibs[name]; ok {
 		cs, ps := t.exprs(x.Args)
@@ -591,7 +595,7 @@ func (t *glTr) call(x *ast.CallExpr) (string, bool) {
 		if p {
 			return c, false
 		}
-		return "(do let r ← " + c + "; r)", false
+		return "(do let r__ ← " + c + "; r__)", false
 	}
 	if sel, ok := x.Fun.(*ast.SelectorExpr); ok {
 		if id, ok := sel.X.(*ast.Ident); ok && t.scope[id.Name] {
@@ -601,7 +605,7 @@ func (t *glTr) call(x *ast.CallExpr) (string, bool) {
 				if p {
 					return c, false
 				}
-				return "(do let r ← " + c + "; r)", false
+				return "(do let r__ ← " + c + "; r__)", false
 			}
 		}
 	}
@@ -616,7 +620,7 @@ func (t *glTr) call(x *ast.CallExpr) (string, bool) {
 		if p {
 			return c, false
 		}
-		return "(do let r ← " + c + "; r)", false
+		return "(do let r__ ← " + c + "; r__)", false
 	}
 	t.die(x, "call of unknown function %s", name)
 	return "", false
@@ -636,9 +640,9 @@ func (t *glTr) tuple(names []string) string {
 
 func glProj(k, n int) string {
 	if n == 1 {
-		return "st"
+		return "st__"
 	}
-	s := "st" + strings.Repeat(".2", k)
+	s := "st__" + strings.Repeat(".2", k)
 	if k < n-1 {
 		s += ".1"
 	}
@@ -676,13 +680,34 @@ func (t *glTr) define(n ast.Node, name string) {
 	if name == "_" {
 		return
 	}
+	if strings.HasSuffix(name, "__") {
+		t.die(n, "identifier %s ends in __ (reserved for the translator's own names)", name)
+	}
 	t.scope[name] = true
 	t.count[name]++
+	lean := name
+	if glLeanKeywords[name] {
+		lean = "«" + name + "»"
+	}
 	if t.count[name] > 1 {
 		t.alias[name] = fmt.Sprintf("%s_%d", name, t.count[name])
 	} else {
-		t.alias[name] = name
+		t.alias[name] = lean
 	}
+}
+
+// Go identifiers that are Lean keywords or would be read as Lean notation
+var glLeanKeywords = map[string]bool{
+	"end": true, "from": true, "fun": true, "at": true, "open": true, "then": true, "do": true, "have": true,
+	"show": true, "let": true, "match": true, "with": true, "where": true, "in": true, "by": true, "def": true,
+	"theorem": true, "instance": true, "structure": true, "class": true, "namespace": true, "section": true,
+	"mut": true, "return": true, "if": true, "else": true, "for": true, "unless": true, "try": true, "catch": true,
+	"finally": true, "deriving": true, "extends": true, "using": true, "calc": true, "forall": true, "exists": true,
+	"Type": true, "Prop": true, "Sort": true, "abbrev": true, "axiom": true, "example": true, "inductive": true,
+	"macro": true, "syntax": true, "notation": true, "private": true, "protected": true, "partial": true,
+	"unsafe": true, "variable": true, "universe": true, "import": true, "export": true, "mutual": true,
+	"attribute": true, "infix": true, "prefix": true, "postfix": true, "local": true, "scoped": true, "nomatch": true,
+	"nofun": true, "suffices": true, "obtain": true, "this": true, "at_": false,
 }
 
 var glAssignOps = map[token.Token]token.Token{
@@ -1123,7 +1148,7 @@ func (t *glTr) assign(ind int, x *ast.AssignStmt) {
 			v := t.fresh()
 			t.line(ind, "let %s := %s", v, glBind(c, p))
 			for k := range x.Lhs {
-				parts = append(parts, strings.Replace(glProj(k, n), "st", v, 1))
+				parts = append(parts, strings.Replace(glProj(k, n), "st__", v, 1))
 			}
 		} else {
 			t.die(x, "multi-value assignment")
@@ -1263,7 +1288,7 @@ func (t *glTr) callStmt(ind int, call *ast.CallExpr) {
 		v := t.fresh()
 		t.line(ind, "let %s ← %s %s", v, sig.lean, strings.Join(args, " "))
 		for i, o := range outs {
-			t.line(ind, "%s := %s", o, strings.Replace(glProj(i, len(outs)), "st", v, 1))
+			t.line(ind, "%s := %s", o, strings.Replace(glProj(i, len(outs)), "st__", v, 1))
 		}
 	}
 }
@@ -1450,7 +1475,7 @@ func (t *glTr) forStmt(ind int, init ast.Stmt, cond ast.Expr, post ast.Stmt, bod
 	r := t.fresh()
 	t.line(ind, "let %s ← Glb.Go.loop %s %s", r, t.tuple(state), fuel)
 	// condition
-	t.line(ind+1, "(fun st => do")
+	t.line(ind+1, "(fun st__ => do")
 	unpack(ind+2, false)
 	cc, cp := t.expr(cond)
 	t.line(ind+2, "%s)", func() string {
@@ -1460,7 +1485,7 @@ func (t *glTr) forStmt(ind int, init ast.Stmt, cond ast.Expr, post ast.Stmt, bod
 		return cc
 	}())
 	// body
-	t.line(ind+1, "(fun st => do")
+	t.line(ind+1, "(fun st__ => do")
 	unpack(ind+2, true)
 	t.loops = append(t.loops, &glLoop{state: state})
 	if pre != nil {
@@ -1472,7 +1497,7 @@ func (t *glTr) forStmt(ind int, init ast.Stmt, cond ast.Expr, post ast.Stmt, bod
 	t.line(ind+2, "return Glb.Go.Ctl.next %s)", t.tuple(state))
 	t.loops = t.loops[:len(t.loops)-1]
 	// post
-	t.line(ind+1, "(fun st => do")
+	t.line(ind+1, "(fun st__ => do")
 	unpack(ind+2, true)
 	if post != nil {
 		t.stmt(ind+2, post)
@@ -1481,11 +1506,11 @@ func (t *glTr) forStmt(ind int, init ast.Stmt, cond ast.Expr, post ast.Stmt, bod
 	// after the loop
 	t.line(ind, "match %s with", r)
 	if len(t.loops) > 0 {
-		t.line(ind, "| .inr v => return Glb.Go.Ctl.ret v")
+		t.line(ind, "| .inr v__ => return Glb.Go.Ctl.ret v__")
 	} else {
-		t.line(ind, "| .inr v => return v")
+		t.line(ind, "| .inr v__ => return v__")
 	}
-	t.line(ind, "| .inl st =>")
+	t.line(ind, "| .inl st__ =>")
 	wrote := false
 	for k, v := range state {
 		isLocal := false
@@ -1525,7 +1550,7 @@ func (t *glTr) rangeStmt(ind int, x *ast.RangeStmt) {
 		key = id.Name
 	}
 	if key == "_" {
-		key = fmt.Sprintf("i_rng%d", t.loopOrd)
+		key = fmt.Sprintf("i_rng__%d", t.loopOrd)
 	}
 	val := ""
 	if x.Value != nil {
@@ -1539,7 +1564,7 @@ func (t *glTr) rangeStmt(ind int, x *ast.RangeStmt) {
 	if t.scope[key] {
 		t.die(x, "range key shadows %s", key)
 	}
-	rngLen := fmt.Sprintf("n_rng%d", t.loopOrd)
+	rngLen := fmt.Sprintf("n_rng__%d", t.loopOrd)
 	t.line(ind, "let %s : Int := Glb.Go.len %s", rngLen, xs)
 	t.define(x, rngLen)
 	t.define(x, key)
@@ -1594,11 +1619,11 @@ func (t *glTr) forStmtRange(ind int, key string, cond ast.Expr, post ast.Stmt, b
 	}
 	r := t.fresh()
 	t.line(ind, "let %s ← Glb.Go.loop %s %s", r, t.tuple(state), fuel)
-	t.line(ind+1, "(fun st => do")
+	t.line(ind+1, "(fun st__ => do")
 	unpack(ind+2, false)
 	cc, _ := t.expr(cond)
 	t.line(ind+2, "pure %s)", cc)
-	t.line(ind+1, "(fun st => do")
+	t.line(ind+1, "(fun st__ => do")
 	unpack(ind+2, true)
 	t.loops = append(t.loops, &glLoop{state: state})
 	if pre != nil {
@@ -1609,17 +1634,17 @@ func (t *glTr) forStmtRange(ind int, key string, cond ast.Expr, post ast.Stmt, b
 	}
 	t.line(ind+2, "return Glb.Go.Ctl.next %s)", t.tuple(state))
 	t.loops = t.loops[:len(t.loops)-1]
-	t.line(ind+1, "(fun st => do")
+	t.line(ind+1, "(fun st__ => do")
 	unpack(ind+2, true)
 	t.stmt(ind+2, post)
 	t.line(ind+2, "return %s)", t.tuple(state))
 	t.line(ind, "match %s with", r)
 	if len(t.loops) > 0 {
-		t.line(ind, "| .inr v => return Glb.Go.Ctl.ret v")
+		t.line(ind, "| .inr v__ => return Glb.Go.Ctl.ret v__")
 	} else {
-		t.line(ind, "| .inr v => return v")
+		t.line(ind, "| .inr v__ => return v__")
 	}
-	t.line(ind, "| .inl st =>")
+	t.line(ind, "| .inl st__ =>")
 	wrote := false
 	for k, v := range state {
 		if v == key {
@@ -1667,13 +1692,22 @@ func glTranslateUnit(u glUnit) {
 	srcs := []string{}
 	for _, f := range u.Funcs {
 		if files[f.File] == nil {
-			files[f.File] = parseFile(f.File)
+			full := filepath.Join(repo, f.File)
+			if strings.HasPrefix(f.File, "@verif/") {
+				// the translator's own self-test corpus lives in /verif, not in the repository
+				full = filepath.Join(filepath.Dir(filepath.Dir(filepath.Dir(outDir))), strings.TrimPrefix(f.File, "@verif/"))
+			}
+			pf, err := parser.ParseFile(fset, full, nil, parser.ParseComments)
+			if err != nil {
+				die("golean: parse %s: %v", f.File, err)
+			}
+			files[f.File] = pf
 			srcs = append(srcs, f.File)
-			data, err := os.ReadFile(filepath.Join(repo, f.File))
+			data, err := os.ReadFile(full)
 			if err != nil {
 				die("golean: %v", err)
 			}
-			glFileBytes[filepath.Join(repo, f.File)] = data
+			glFileBytes[full] = data
 		}
 	}
 	sort.Strings(srcs)
@@ -2060,4 +2094,22 @@ func extractGoLean() {
 				Fuel:      map[int]string{0: "(Glb.Go.len args + 1).toNat"}},
 		},
 	})
+
+	// TrSelfTest: the translator's own test corpus (/verif/harness/trtest), compared with Go by the stream `trself`
+	{
+		std := "(s t : Bytes) (n : Int) (b : Bool)"
+		ret := "(Bytes × Int × Bool)"
+		var fs []glFunc
+		for _, name := range []string{"ShortAnd", "ShortOr", "EvalOrder", "ByteWrap", "LoopCtl", "RangeIdx", "SwitchTag", "SwitchBare", "SliceBounds", "Nested", "Named", "put", "PtrParam", "Swap", "DivMod", "StrOps", "IfInit", "Iota", "Bits", "Down", "Appends", "RangeVal", "Store"} {
+			f := glFunc{File: "@verif/harness/trtest/trtest.go", Name: name, Args: std, Ret: ret}
+			if name == "put" {
+				f.Args, f.Ret, f.Ptr = "(buf : Bytes) (c : UInt8)", "Bytes", map[string]bool{"buf": true}
+			}
+			if name == "RangeVal" {
+				f.Ptr = map[string]bool{"range-bytes:bs": true}
+			}
+			fs = append(fs, f)
+		}
+		glTranslate(glUnit{Module: "TrSelfTest", NS: "Glb.Tr.SelfTest", Funcs: fs})
+	}
 }
